@@ -94,6 +94,8 @@ fn materialise(root: &Path, l: &Layout) -> std::io::Result<()> {
         }
     }
     if l.stray & 2 == 2 {
+        // a named pipe in the database directory is not a sub-directory (best effort: no mkfifo, no pipe)
+        let _ = std::process::Command::new("mkfifo").arg(root.join("pipe-1.0")).stderr(std::process::Stdio::null()).status();
         std::fs::write(root.join("pkg-vulnerabilities"), b"vulns")?;
         std::fs::write(root.join("z-9"), b"a plain file that looks like a package name")?;
     }
@@ -375,14 +377,14 @@ fn check_reiterate(t: &mut Tally, scratch: &Path, id: usize) {
     }
     let r = guard(|| -> Result<(Vec<String>, Vec<String>, Vec<String>), String> {
         let first = list(&root)?;
-        // alpha loses a mandatory file, gamma gains its missing one, delta's +DESC becomes a dangling link
+        // alpha loses a mandatory file, gamma gains its missing one, delta loses its +DESC
         // (a failure to change the scratch tree is a machinery fault, not a verdict)
         let miss = MANDATORY[id % 3];
         let io = |e: std::io::Error| -> ! { mc_core::run::machinery_fault(&format!("cannot change the scratch database: {}", e)) };
         std::fs::remove_file(root.join("alpha-1.0").join(miss)).unwrap_or_else(|e| io(e));
         std::fs::write(root.join("gamma-3.0").join(miss), content("gamma-3.0", miss)).unwrap_or_else(|e| io(e));
+        // (plainly removed: whether a dangling link still makes the directory "contain" the file is not decided)
         std::fs::remove_file(root.join("delta-4.0").join("+DESC")).unwrap_or_else(|e| io(e));
-        std::os::unix::fs::symlink("no-such-target", root.join("delta-4.0").join("+DESC")).unwrap_or_else(|e| io(e));
         for n in ["alpha-1.0", "gamma-3.0", "delta-4.0"] {
             let _ = set_time(&root.join(n).join(miss));
             let _ = set_time(&root.join(n));
@@ -526,44 +528,57 @@ fn metadata_histories(t: &mut Tally, n: usize) {
 /// `only`: replay exactly this sequence of calls (as recorded in a violation's case).
 fn metadata_histories_from(t: &mut Tally, n: usize, only: Option<&[String]>) {
     // (no blank-only value: whether that counts as empty is left open)
-    const VALS: [&str; 7] = ["", "x", "y\n", "two\nlines\n", "@frobnicate\n", "@ignore x\nbin/a\n@pkgdep\n", "@name p-1\nbin/x\n"];
-    let entries = [MetadataEntry::Comment, MetadataEntry::Contents, MetadataEntry::Desc, MetadataEntry::BuildInfo];
-    let k = entries.len() * VALS.len();
-    let mut pre = vec![];
-    seqs::dfs(k, n, &mut pre, &|_| false, &mut |q: &[usize]| {
-        if q.is_empty() {
-            return;
+    const TEXTS: [&str; 6] = ["", "x", "two\nlines\n", "@frobnicate\n", "@ignore x\nbin/a\n@pkgdep\n", "@name p-1\nbin/x\n"];
+    let mut ops: Vec<(usize, &str)> = vec![];
+    for e in [2usize, 3, 5] {
+        for v in TEXTS {
+            ops.push((e, v));
         }
-        if let Some(calls) = only {
-            let mine: Vec<String> = q.iter().map(|o| format!("{:?} <- {:?}", ["Comment", "Contents", "Desc", "BuildInfo"][o / VALS.len()], VALS[o % VALS.len()])).collect();
-            if mine != calls {
+    }
+    // optional entries, among them the two sizes in both orders of magnitude
+    ops.extend([(0usize, "A=1\n"), (12, "10"), (13, "5"), (13, "20"), (12, "x")]);
+    let label = |o: usize| format!("{} <- {:?}", FILES[ops[o].0], ops[o].1);
+    for start in 0..3usize {
+        // 0: Metadata::new(), 1: Metadata::default(), 2: new() with the three mandatory values set
+        let depth = if start == 2 { n.saturating_sub(1).max(1) } else { n };
+        let mut pre = vec![];
+        seqs::dfs(ops.len(), depth, &mut pre, &|_| false, &mut |q: &[usize]| {
+            if q.is_empty() {
                 return;
             }
-        }
-        t.evals += 1;
-        t.validated += 1;
-        t.states += 1;
-        t.transitions += 1;
-        let r = guard(|| {
-            let mut m = Metadata::new();
-            for (step, o) in q.iter().enumerate() {
-                let e = match o / VALS.len() { 0 => MetadataEntry::Comment, 1 => MetadataEntry::Contents, 2 => MetadataEntry::Desc, _ => MetadataEntry::BuildInfo };
-                let _ = m.read_metadata(e, VALS[o % VALS.len()]);
-                let by_getters = !m.comment().is_empty() && !m.contents().is_empty() && !m.desc().is_empty();
-                if m.is_valid().is_ok() != by_getters {
-                    return Some((step, by_getters, m.is_valid().is_ok()));
+            let mine: Vec<String> = std::iter::once(format!("start {}", start)).chain(q.iter().map(|o| label(*o))).collect();
+            if let Some(calls) = only {
+                if mine != calls {
+                    return;
                 }
             }
-            None
+            t.evals += 1;
+            t.validated += 1;
+            t.states += 1;
+            t.transitions += 1;
+            let r = guard(|| {
+                let mut m = if start == 1 { Metadata::default() } else { Metadata::new() };
+                if start == 2 {
+                    for e in [2usize, 3, 5] {
+                        let _ = m.read_metadata(meta_entry(e), "base\n");
+                    }
+                }
+                for (step, o) in q.iter().enumerate() {
+                    let _ = m.read_metadata(meta_entry(ops[*o].0), ops[*o].1);
+                    let by_getters = !m.comment().is_empty() && !m.contents().is_empty() && !m.desc().is_empty();
+                    if m.is_valid().is_ok() != by_getters {
+                        return Some((step, by_getters, m.is_valid().is_ok()));
+                    }
+                }
+                None
+            });
+            match r {
+                Ok(None) => t.outcome("metadata-history/consistent"),
+                Ok(Some((step, want, got))) => t.violation(Violation::new("metadata-history", json!({"calls": mine}), json!({"after_call": step + 1, "is_valid": want}), json!(got), "is_valid holds exactly when comment, contents and description are all non-empty")),
+                Err(m) => t.violation(Violation::new("metadata-history", json!({"calls": mine}), json!("returns"), json!(format!("panic: {}", m)), "Metadata panicked")),
+            }
         });
-        let case = || json!({"calls": q.iter().map(|o| format!("{:?} <- {:?}", ["Comment", "Contents", "Desc", "BuildInfo"][o / VALS.len()], VALS[o % VALS.len()])).collect::<Vec<_>>()});
-        match r {
-            Ok(None) => t.outcome("metadata-history/consistent"),
-            Ok(Some((step, want, got))) => t.violation(Violation::new("metadata-history", case(), json!({"after_call": step + 1, "is_valid": want}), json!(got), "is_valid holds exactly when comment, contents and description are all non-empty")),
-            Err(m) => t.violation(Violation::new("metadata-history", case(), json!("returns"), json!(format!("panic: {}", m)), "Metadata panicked")),
-        }
-    });
-    let _ = entries;
+    }
 }
 
 /// One small database reached through different spellings of its root: a directory whose name
@@ -732,7 +747,7 @@ fn replay(run: &Run, doc: &Value) -> Option<Violation> {
         Some("roots") => check_roots(&mut t, &run.scratch_dir()),
         Some("metadata-history") => {
             let calls: Vec<String> = c["calls"].as_array().map(|a| a.iter().filter_map(|x| x.as_str().map(|s| s.to_string())).collect()).unwrap_or_default();
-            metadata_histories_from(&mut t, calls.len().max(1), Some(&calls));
+            metadata_histories_from(&mut t, calls.len().max(2), Some(&calls));
         }
         Some("reiterate") => check_reiterate(&mut t, &run.scratch_dir(), c["variant"].as_u64().unwrap_or(0) as usize),
         Some("large") => check_large(&mut t, &run.scratch_dir(), c["packages"].as_u64().unwrap_or(1) as usize),
@@ -849,14 +864,14 @@ fn main() {
     // the tree changes between two iterations while every modification time is put back
     {
         let ids: Vec<usize> = (0..6).collect();
-        run.bound("re-iteration: 6 variants of a 4-directory tree changed between iterations (a file removed, a file added, a file replaced by a dangling link) with all modification times restored");
+        run.bound("re-iteration: 6 variants of a 4-directory tree changed between iterations (a file removed here, the missing file added there) with all modification times restored");
         par_items(&run, "C20 re-iteration", &ids, |_, i, t| {
             t.states += 1;
             t.transitions += 3;
             check_reiterate(t, &scratch, *i);
         });
     }
-    run.bound(format!("Metadata histories: all sequences of <= {} read_metadata calls over 4 entries x 7 values (incl. packing-list text, well-formed and not) on one object; database roots: 5 spellings (non-UTF-8 name, symbolic link, trailing slash, dot segments)", run.pick(3, 4)));
+    run.bound(format!("Metadata histories: all sequences of <= {} read_metadata calls over 23 (entry, value) operations (three mandatory entries x six texts incl. packing lists, BUILD_INFO, the two sizes) on an object from new(), from default() and from a valid base; database roots: 5 spellings (non-UTF-8 name, symbolic link, trailing slash, dot segments)", run.pick(3, 4)));
     let mut t = Tally::new();
     metadata_histories(&mut t, run.pick(3, 4));
     check_roots(&mut t, &scratch);
